@@ -1,0 +1,8 @@
+//go:build !verif
+
+// Package verifhook provides yield points used by the verification harness.
+// Without the `verif` build tag every function is an empty, inlinable no-op.
+package verifhook
+
+// Yield is a no-op without the `verif` build tag.
+func Yield(point string) {}
